@@ -343,6 +343,43 @@ def _subst_worker(arg):
     return st, bad, len(sites)
 
 
+# ------------------------------------------------------------------------------------------------ family 2e (tagged fields)
+
+def _reform_worker(arg):
+    """family 2e: the two tagged fields of a one-input one-output transaction (signature, public key: a type byte followed
+    by 64 bytes) re-formed: every type byte value x {no lead byte, lead byte 00..04} x every prefix and every suffix of the
+    field's bytes (length 0..64) in place of the 64 bytes - alternative (shorter / compressed / differently tagged) forms
+    of the same key or signature must not decode, or must re-encode to exactly what was consumed"""
+    which, tags = arg
+    from skepticoin.datatypes import Transaction
+    tx = world.mk_tx([(world.ref(bytes([7]) * 32, 1), K[0])], [(5, K[1])])
+    data = tx.serialize()
+    field = tx.inputs[0].signature.signature if which == 'signature' else K[1].pub
+    off = data.index(field) - 1
+    if len(field) != 64 or off < 0:
+        from ..seams import HarnessError
+        raise HarnessError("tagged field not found in the sample encoding")
+    st = {'evaluations': 0, 'decoded': 0}
+    bad = []
+    leads = [b''] + [bytes([v]) for v in range(5)]
+    for tag in tags:
+        for lead in leads:
+            for L in range(0, 65):
+                for part in ({field[:L], field[64 - L:]} if 0 < L < 64 else {field[:L]}):
+                    mutant = data[:off] + bytes([tag]) + lead + part + data[off + 65:]
+                    if mutant == data:
+                        continue
+                    st['evaluations'] += 1
+                    status, detail = decode_check('Transaction', Transaction, mutant)
+                    if status == 'undecodable':
+                        continue
+                    st['decoded'] += 1
+                    if status in ('reencode', 'id') and len(bad) < 4:
+                        bad.append(('%s-reformed-field' % status, 'Transaction', "%s field re-formed as type byte %02x + %s%d of its "
+                                    "bytes" % (which, tag, ('lead byte %s + ' % lead.hex()) if lead else '', L), detail, mutant.hex()))
+    return st, bad, 0
+
+
 # ------------------------------------------------------------------------------------------------ family 3 (store)
 
 def store_ids(ctx):
@@ -401,6 +438,15 @@ def run(ctx):
     for st, bad, _ in res:
         for key, tname, desc, detail, hx in bad:
             ctx.violation('%s-%s' % (key, tname), "%s (%s): %s" % (tname, desc, detail), {'fam': '2', 'type': tname, 'bytes': hx})
+    res = ctx.pmap(_reform_worker, [(w, list(range(t, t + 16))) for w in ('signature', 'public key') for t in range(0, 256, 16)])
+    n2e = sum(r[0]['evaluations'] for r in res)
+    dec2e = sum(r[0]['decoded'] for r in res)
+    for st, bad, _ in res:
+        for key, tname, desc, detail, hx in bad:
+            ctx.violation('%s-%s' % (key, tname), "%s (%s): %s" % (tname, desc, detail), {'fam': '2', 'type': tname, 'bytes': hx})
+    n2 += n2e
+    dec += dec2e
+    ctx.cov['reformed_field_mutants'] = n2e
     n3 = store_ids(ctx)
     # ---- ids and encodings of values built in memory while another thread encodes / hashes
     thr = thrscen.run(ctx, 'C07', 1 if ctx.quick else 2)
@@ -410,7 +456,7 @@ def run(ctx):
         'rule': "family 1: %d grid values (encode->decode, field-wise equality, exact consumption, ids); family 2a: all %d byte "
                 "strings of length <= %d to the VLQ decoder (%d accepted as complete encodings); family 2b-d: %d sample encodings "
                 "x every byte position x every byte value, 1..8 redundant 0x80 bytes before each of %d VLQ fields, trailing "
-                "data (%d mutants decoded and were re-encoded/id-checked); family 3: %d objects read back from a BlockStore. "
+                "data, and the signature / public-key field re-formed under every type byte with every prefix / suffix of its bytes (%d mutants decoded and were re-encoded/id-checked); family 3: %d objects read back from a BlockStore. "
                 "distinct_nontrivial = inputs that decoded" % (n1, n2a, L, acc2a, len(samples), sites, dec, n3),
         'samples': [{'vlq': '8005'}, {'type': samples[0][0], 'len': len(samples[0][1])}],
         'exhaustive': True, 'grid_values': n1, 'vlq_strings': n2a, 'substitution_mutants': n2, 'mutants_decoded': dec,
